@@ -120,6 +120,7 @@ func checkC17(c *Ctx, r *Report) {
 	r.rule("C17.R3", "no two AVP names share (code, vendor) in the merged application; a name redefined across dictionaries keeps code and type; names resolved from the base dictionary are not shadowed by code", 50)
 	r.rule("C17.R4", "request command codes and mux handler names are defined by the dictionaries; both dictionaries are loaded on the way to the SBI server start", 8)
 	r.rule("C17.R5", "the error of every diam Marshal/Unmarshal call is tested on its own result before the message is used", 8)
+	r.rule("C17.R7", "every message is decoded into a struct that is empty: a new local object per decode (go-diameter only sets the members whose AVPs are present, so optional groups of an earlier message would stay)", 4)
 	r.rule("C17.R6", "AVP code constants of ccs_diameter/code that name a dictionary AVP carry that AVP's code", 20)
 
 	dictPkg := c.pkg("ccs_diameter/dict")
@@ -327,6 +328,7 @@ func checkC17(c *Ctx, r *Report) {
 
 	c17Commands(c, r, ds, appID)
 	c17ErrDiscipline(c, r)
+	c17FreshDecodeTarget(c, r)
 	c17Codes(c, r, ds, appID)
 }
 
@@ -530,6 +532,87 @@ func c17ErrDiscipline(c *Ctx, r *Report) {
 			r.check(tested, "C17.R5", key, posOf(c, ins), "error compared with nil in a branch condition",
 				"the error returned by "+obj.Name()+" is never compared with nil (a different variable is tested): a failed decode/encode is used as if it had succeeded")
 		})
+	}
+}
+
+// c17FreshDecodeTarget (C17.R7): Unmarshal(&x) fills only the members whose AVPs are in the
+// message.  The struct handed to it must therefore be empty: a local object of the function
+// that no earlier Unmarshal on the same path has filled - when the call sits in a loop the
+// object has to be made inside that loop.
+func c17FreshDecodeTarget(c *Ctx, r *Report) {
+	for _, f := range c.ModFuncs {
+		var calls []*ssa.Call
+		eachInstr(f, func(_ *ssa.BasicBlock, _ int, ins ssa.Instruction) {
+			if call, ok := ins.(*ssa.Call); ok && isFunc(calleeObj(&call.Call), diamPath, "Message.Unmarshal") {
+				calls = append(calls, call)
+			}
+		})
+		for _, call := range calls {
+			obj := calleeObj(&call.Call)
+			key := fnKey(f) + "|" + obj.Name() + "#" + ordinalOf(f, call, obj) + " target"
+			args := call.Call.Args
+			var target ssa.Value
+			if len(args) > 0 {
+				target = args[len(args)-1]
+			}
+			for {
+				if mi, ok := target.(*ssa.MakeInterface); ok {
+					target = mi.X
+					continue
+				}
+				if ct, ok := target.(*ssa.ChangeType); ok {
+					target = ct.X
+					continue
+				}
+				break
+			}
+			al, ok := target.(*ssa.Alloc)
+			if !ok {
+				r.viol("C17.R7", key, posOf(c, call), "the message is decoded into "+describe(target)+", not into a local object made for this decode: members whose AVPs are absent keep whatever the object held before")
+				continue
+			}
+			bad := ""
+			// in a loop: can the call be reached again without passing the allocation?
+			avoid := map[*ssa.BasicBlock]bool{al.Block(): true}
+			resetBefore := false // x = T{} in front of the call, in its block
+			for _, ref := range *al.Referrers() {
+				if st, ok := ref.(*ssa.Store); ok && st.Addr == ssa.Value(al) {
+					if k, ok := st.Val.(*ssa.Const); ok && k.Value == nil {
+						if st.Block() == call.Block() {
+							if instrIndex(st) < instrIndex(call) {
+								resetBefore = true
+							}
+						} else {
+							avoid[st.Block()] = true
+						}
+					}
+				}
+			}
+			if !resetBefore && (al.Block() != call.Block() || instrIndex(al) > instrIndex(call)) {
+				for _, s := range call.Block().Succs {
+					if s == call.Block() || reachableFrom(s, nil, nil, avoid)[call.Block()] {
+						bad = "the call is in a loop and the object is made outside it: from the second round on the struct still holds the members of the message decoded before"
+					}
+				}
+			}
+			// an earlier decode into the same object on a path to this one
+			for _, other := range calls {
+				if other == call || len(other.Call.Args) == 0 {
+					continue
+				}
+				ot := other.Call.Args[len(other.Call.Args)-1]
+				if mi, ok := ot.(*ssa.MakeInterface); ok {
+					ot = mi.X
+				}
+				if ot != ssa.Value(al) {
+					continue
+				}
+				if other.Block() == call.Block() && instrIndex(other) < instrIndex(call) || other.Block() != call.Block() && reachableFrom(other.Block(), nil, nil, avoid)[call.Block()] {
+					bad = "the same object was filled by the Unmarshal at " + posOf(c, other) + " on a path to this one"
+				}
+			}
+			r.check(bad == "", "C17.R7", key, posOf(c, call), "decoded into a new local object", "the message is not decoded into an empty struct: "+bad+" - an optional group (Final-Unit-Indication, Cost-Information ...) of the earlier message is delivered as part of this one")
+		}
 	}
 }
 
